@@ -176,6 +176,7 @@ var c11Targets = []string{
 	"select x in a b; do :; done", "for ((i=0;i<1;i++)); do :; done", "let x=1", "coproc foo", "time foo", "time -p foo", "declare -a x", "local y=1", "export E=1", "readonly R",
 	"typeset -i n", "nameref n", "echo $[1+2]", "echo $((2**3))", "a+=b", "a+=(c)", "x=1 a[2]=3 foo", "echo ${#a[@]}", "echo ${a[@]:1}", "@test \"d\" { :; }", "@test foo", "echo @test",
 	"for i; { :; }", "foo &!", "foo &|", "echo ${a:h}", "echo ${(f)a}", "echo ${+a}", "echo ${%a}", "echo ${|cmd;}", "echo ${ cmd;}", "[ a = b ]", "test -n x", "echo `a`", "echo $(a)", "echo ${a:-b} ${a%%x}",
+	"{ }", "f() { }", "( )", "if true; then\nfi", "while false; do\ndone", "for i in a; do\ndone", "case x in a) ;; esac", "if a; then b; else\nfi", "{ ; }",
 	"if [[ a ]]; then :; fi", "while ((1)); do :; done", "f() ((1))", "f() [[ a ]]", "echo $(( a[1] + b[x] ))", "echo \"${a[1]}\"", "echo $((x = a[0]))",
 }
 
